@@ -124,17 +124,21 @@ def step (st : St) (toks : List String) : St × String :=
       { st with caches := setCache st b.name c, origins := st.origins.push (.kubeSync b) }) st
     ({ st with synced := true }, s!"ctx={st.hook.kbs.length}")
   | ["mk", "onStartup"] => ({ st with origins := st.origins.push .onStartup }, "ctx=1")
-  | ["mk", "schedule", name] =>
-    match st.hook.obs.find? (fun b => b.kind == .schedule && b.name == name) with
-    | some b => ({ st with origins := st.origins.push (.other b "") }, "ctx=1")
-    | none => (st, "ctx=0")
-  | ["mk", k, name, uid] =>
-    match okind? k with
+  -- bindings of one type may share a name (every unnamed schedule binding is "schedule"): a context is
+  -- attributed to its binding by the position `k` of the binding among the `ob` lines
+  | ["mk", "schedule", name, k] =>
+    match k.toNat?.bind (fun k => st.hook.obs[k]?) with
+    | some b =>
+      if b.kind == .schedule && b.name == name then ({ st with origins := st.origins.push (.other b "") }, "ctx=1")
+      else (st, "bad-op")
     | none => (st, "bad-op")
-    | some kind =>
-      match st.hook.obs.find? (fun b => b.kind == kind && b.name == name) with
-      | some b => ({ st with origins := st.origins.push (.other b s!"review:{uid}") }, "ctx=1")
-      | none => (st, "ctx=0")
+  | ["mk", k, name, uid, i] =>
+    match okind? k, i.toNat?.bind (fun i => st.hook.obs[i]?) with
+    | some kind, some b =>
+      if b.kind == kind && b.name == name && kind != .schedule then
+        ({ st with origins := st.origins.push (.other b s!"review:{uid}") }, "ctx=1")
+      else (st, "bad-op")
+    | _, _ => (st, "bad-op")
   | ["run", idx] =>
     match (natList? idx).bind (fun is => is.mapM (origin? st)) with
     | none => (st, "bad-op")
@@ -150,6 +154,19 @@ def step (st : St) (toks : List String) : St × String :=
       match json? got with
       | some g => if g.print == want then (st, "true") else (st, "false want=" ++ want)
       | none => (st, "false want=" ++ want)
+  | ["oracle", "snapshots", idx, bits] =>
+    -- the clause "`snapshots` is present exactly when the binding includes snapshots", item by item
+    match (natList? idx).bind (fun is => is.mapM (origin? st)), natList? bits with
+    | some os, some bs =>
+      if os.length != bs.length then (st, s!"false items={bs.length} want={os.length}") else
+      let bad := (List.range os.length).filter (fun i =>
+        match os[i]?, bs[i]? with
+        | some o, some b => !(Spec.snapshotsClause st.version o (b != 0))
+        | _, _ => true)
+      match bad with
+      | [] => (st, "true")
+      | i :: _ => (st, s!"false item={i} has-snapshots={bs[i]?.getD 0} includes=" ++ showStrs (((os[i]?).map incOf).getD []))
+    | _, _ => (st, "bad-op")
   | _ => (st, "bad-op")
 
 def suite : Suite St := { init := {}, step := step }
